@@ -614,6 +614,8 @@ class Engine(ExprMixin, CallMixin, StmtMixin):
         res = self.fresh_val(c.result, 'r_' + c.qual.split('.')[-1].strip('_'), sn) if c.result != 'none' else VNone
         ctx_n = Ctx(self, sn, dict(binding, result=res), old=pre, old_names=binding, module=mod)
         for cl in c.ensures:
+            if self._alias_clause(cl.text, ctx_n, sn, binding, res):
+                continue
             if cl.carve:        # a clause with an open finding is only available under the finding's hypothesis
                 hz = self.goal_of(self.spec.clause(cl.carve[1], ctx_n))
                 gz = self.goal_of(self.spec.clause(cl.text, ctx_n))
@@ -622,6 +624,10 @@ class Engine(ExprMixin, CallMixin, StmtMixin):
             self.assume_clause(sn, self.spec.clause(cl.text, ctx_n))
         for h in c.hooks + self.reg.post_hooks:
             h(self, sn, dict(binding, result=res), pre)
+        # vacuity guard: the callee's postcondition must not contradict the caller's state (strict: every site)
+        self.obls.append(Obl('%s.call(%s).post-consistent' % (site, c.key), sn.hyps(), BoolVal(False), 'V', (),
+                             meta={'expect': 'sat', 'strict': True, 'pre_hyps': len(pre.hyps())},
+                             func=self.cur.key if self.cur else None))
         outs.append(('val', sn, res))
         return outs
 
@@ -645,6 +651,31 @@ class Engine(ExprMixin, CallMixin, StmtMixin):
             if r is not None:
                 return r
         raise Unsupported('cannot pass %s as %s' % (v.ty, ty))
+
+    def _alias_clause(self, text, ctx, st, binding, res):
+        """postcondition `a.b.f is x` (or `result is x`) over object references: performed as an assignment"""
+        m = re.match(r'^\s*(\w+(?:\.\w+)*)\s+is\s+(\w+(?:\.\w+)*)\s*$', text)
+        if not m or m.group(2) == 'None':
+            return False
+        try:
+            rhs = self.spec.ev_expr(m.group(2), ctx)
+        except Unsupported:
+            return False
+        if rhs.ty != 'obj':
+            return False
+        parts = m.group(1).split('.')
+        if parts == ['result']:
+            if res.ty == 'obj':
+                res.a.clear()
+                res.a.update(rhs.a)
+            return True
+        v = ctx.names.get(parts[0])
+        for fld in parts[1:-1]:
+            v = st.field(v, fld) if v is not None and v.ty == 'obj' else None
+        if v is None or v.ty != 'obj':
+            return False
+        st.set_field(v, parts[-1], rhs)
+        return True
 
     def _havoc_modifies(self, c, binding, st):
         for path in c.modifies:
